@@ -1,0 +1,25 @@
+//go:build verif
+
+package tglib
+
+import (
+	"os"
+	"strconv"
+
+	"github.com/ishidawataru/sctp"
+)
+
+// verifAdopt (build tag verif only): when STGUTG_VERIF_FD names an inherited, already connected
+// SOCK_SEQPACKET socket, ConnectToAmf adopts it instead of dialling SCTP. The sandbox used for
+// verification has no kernel SCTP; everything above the socket is the unmodified code.
+func verifAdopt() *sctp.SCTPConn {
+	v := os.Getenv("STGUTG_VERIF_FD")
+	if v == "" {
+		return nil
+	}
+	fd, err := strconv.Atoi(v)
+	if err != nil || fd < 0 {
+		return nil
+	}
+	return sctp.NewSCTPConn(fd, nil)
+}
